@@ -86,7 +86,7 @@ Section C10.
     is_singleton k = true -> existsb (kind_eqb k) (subscribed_kinds w) = true ->
     new_observer I k w = (w, inr EValidation).
   Proof.
-    intros Hs He. unfold new_observer, bind, get. cbn. rewrite Hs, He. reflexivity.
+    intros Hs He. unfold new_observer, new_observer_gen, bind, get. cbn. rewrite Hs, He. reflexivity.
   Qed.
 
   (** create-or-get returns the first subscribed observer of the class that
@@ -126,7 +126,7 @@ Section C10.
 
   Lemma new_observer_SubsOK k w : SubsOK w -> SubsOK (fst (new_observer I k w)).
   Proof.
-    intros [Hnd Hr]. destruct w as [d c f os ss]. unfold new_observer, bind, get. cbn in *.
+    intros [Hnd Hr]. destruct w as [d c f os ss]. unfold new_observer, new_observer_gen, bind, get. cbn in *.
     match goal with |- context [if ?b then _ else _] => destruct b end; cbn; [split; assumption|].
     split.
     - apply NoDup_app_intro_single; [exact Hnd|]. intro Hin. apply Hr in Hin. lia.
